@@ -18,7 +18,7 @@ pub fn draw_client_op(sw: &Swarm, w: &World, rng: &mut Rng) -> ClientOp {
         0 => ClientOp::OpenSession {
             session: w.sessions.len(),
             addr: richest_address(w, rng),
-            limit: *rng.pick(&[1usize, 2, 3, 7, 0]),
+            limit: *rng.pick(&[1usize, 2, 3, 7, 50, 100, 200, 200, 0]),
             min_conf: draw_min_conf(w, rng),
         },
         1 => {
@@ -27,7 +27,7 @@ pub fn draw_client_op(sw: &Swarm, w: &World, rng: &mut Rng) -> ClientOp {
                 ClientOp::OpenSession {
                     session: w.sessions.len(),
                     addr: richest_address(w, rng),
-                    limit: *rng.pick(&[1usize, 2, 3, 7]),
+                    limit: *rng.pick(&[1usize, 2, 3, 7, 50, 100, 200]),
                     min_conf: draw_min_conf(w, rng),
                 }
             } else {
